@@ -74,7 +74,11 @@ theorem toI16_small (v : Nat) (h : v < 32768) : toI16 v = v := by
   simp [this, h]
 
 /-- `VG.WF` pins the version that `vpackvg` writes -/
-theorem packVersion_wf (g : VG) (h : g.WFmem) : packVersion g = g.version := by
+theorem VG.WFmem.fix {g : VG} (h : g.WFmem) : g.WFfixmem := by
+  obtain ⟨a1, a2, a3, a4, a5, a6, a7, a8, a9, a10, _, a12, a13, a14⟩ := h
+  exact ⟨a1, a2, a3, a4, a5, a6, a7, a8, a9, a10, a12, a13, a14⟩
+
+theorem packVersion_wf (g : VG) (h : g.WFfixmem) : packVersion g = g.version := by
   obtain ⟨_, _, _, _, _, _, _, _, _, hf, _⟩ := h
   unfold packVersion
   split
@@ -92,15 +96,16 @@ namespace H4.VGroup
 open H4.Gen.Hdf
 
 /-- everything `vpackvg` writes before the version field -/
-def packBody (g : VG) : Bytes :=
+def packBody (fx : Bool) (g : VG) : Bytes :=
   u16 g.members.length ++ g.members.flatMap (fun p => u16 p.1) ++ g.members.flatMap (fun p => u16 p.2)
   ++ packStr g.name ++ packStr g.cls ++ u16 g.extag ++ u16 g.exref
-  ++ (if g.flags ≠ 0 then
+  ++ (if hasFlagsWord fx g then
         u32 g.flags ++ (if g.flags &&& VG_ATTR_SET ≠ 0 then u32 g.attrs.length ++ packPairs g.attrs else [])
       else [])
 
-theorem vpackvg_eq (g : VG) : vpackvg g = packBody g ++ (u16 (packVersion g) ++ (u16 g.more ++ [0])) := by
-  simp [vpackvg, packBody, List.append_assoc]
+theorem vpackvgF_eq (fx : Bool) (g : VG) :
+    vpackvgF fx g = packBody fx g ++ (u16 (packVersion g) ++ (u16 g.more ++ [0])) := by
+  simp [vpackvgF, packBody, List.append_assoc]
 
 theorem toI16_eq4 (v : Nat) (h : v < 65536) : toI16 v = 4 ↔ v = 4 := by
   unfold toI16
@@ -112,20 +117,21 @@ theorem toI16_eq_new (v : Nat) (h : v < 65536) : toI16 v = (VSET_NEW_VERSION : N
   have c4 : VSET_NEW_VERSION = 4 := by decide
   rw [c4]; exact_mod_cast toI16_eq4 v h
 
-theorem vunpackvg_vpackvg (g : VG) (h : g.WFmem) : vunpackvg (vpackvg g) = some g.norm := by
+/-- round trip of the record, for the code as it is (`fx = false`, needs "no flags ⇒ not version 4") and for the
+    proposed fix of finding 3 (`fx = true`, no such restriction) -/
+theorem vunpackvg_vpackvgF (fx : Bool) (g : VG) (h : g.WFfixmem)
+    (h0 : fx = false → g.flags = 0 → g.version ≠ VSET_NEW_VERSION) : vunpackvg (vpackvgF fx g) = some g.norm := by
   have hv := packVersion_wf g h
-  obtain ⟨hlen, hmem, hname, hcls, hextag, hexref, hmore, hver, hver4, hf1, hf0, hfl, ha1, ha0⟩ := h
-  have c4 : VSET_NEW_VERSION = 4 := by decide
-  rw [vpackvg_eq, hv]
-  have hlen5 : (packBody g ++ (u16 g.version ++ (u16 g.more ++ [0]))).length = (packBody g).length + 5 := by
+  obtain ⟨hlen, hmem, hname, hcls, hextag, hexref, hmore, hver, hver4, hf1, hfl, ha1, ha0⟩ := h
+  rw [vpackvgF_eq, hv]
+  have hlen5 : (packBody fx g ++ (u16 g.version ++ (u16 g.more ++ [0]))).length = (packBody fx g).length + 5 := by
     simp [u16_length]
-  have hdrop : (packBody g ++ (u16 g.version ++ (u16 g.more ++ [0]))).drop ((packBody g).length + 5 - 5)
+  have hdrop : (packBody fx g ++ (u16 g.version ++ (u16 g.more ++ [0]))).drop ((packBody fx g).length + 5 - 5)
       = u16 g.version ++ (u16 g.more ++ [0]) := by simp
   unfold vunpackvg
   rw [hlen5, hdrop]
-  have n5 : ¬ (packBody g).length + 5 < 5 := by omega
+  have n5 : ¬ (packBody fx g).length + 5 < 5 := by omega
   simp only [n5, if_false, getU16_u16 _ hver, getU16_u16 _ hmore, hver4, if_true]
-  -- front to back
   have htags : ∀ x ∈ g.members.map (·.1), x < 65536 := by
     intro x hx; obtain ⟨p, hp, rfl⟩ := List.mem_map.mp hx; exact (hmem p hp).1
   have hrefs : ∀ x ∈ g.members.map (·.2), x < 65536 := by
@@ -137,24 +143,50 @@ theorem vunpackvg_vpackvg (g : VG) (h : g.WFmem) : vunpackvg (vpackvg g) = some 
   simp only [packBody, List.append_assoc, getU16_u16 _ hlen, flatMap_comp_fst, flatMap_comp_snd, t1, t2]
   simp only [getStr_pack _ hname, getStr_pack _ hcls, getU16_u16 _ hextag, getU16_u16 _ hexref, zip_map_fst_snd]
   by_cases hz : g.flags = 0
-  · have hne : ¬ toI16 g.version = VSET_NEW_VERSION := by
-      rw [toI16_eq_new _ hver]; exact hf0 hz
-    have hattr : g.attrs = [] := ha0 (by simp [hz])
-    simp only [hne, if_false]
-    cases g; simp_all [VG.norm]
+  · have hattr : g.attrs = [] := ha0 (by simp [hz])
+    by_cases h4 : g.version = VSET_NEW_VERSION
+    · -- only reachable with the fix: the flags word (0) is written and read back
+      have hfx : fx = true := by
+        cases fx with
+        | true => rfl
+        | false => exact absurd h4 (h0 rfl hz)
+      have he : toI16 g.version = VSET_NEW_VERSION := (toI16_eq_new _ hver).mpr h4
+      have hw : hasFlagsWord fx g = true := by simp [hasFlagsWord, hfx, he]
+      have hb : g.flags &&& VG_ATTR_SET = 0 := by simp [hz]
+      simp only [hw, if_true, he, hb, ne_eq, not_true_eq_false, if_false, List.nil_append, List.append_assoc,
+        getU32_u32 _ hfl]
+      cases g; simp_all [VG.norm]
+    · have hne : ¬ toI16 g.version = VSET_NEW_VERSION := by rw [toI16_eq_new _ hver]; exact h4
+      have hw : hasFlagsWord fx g = false := by simp [hasFlagsWord, hz, hne]
+      simp only [hw, hne, if_false, Bool.false_eq_true, List.nil_append]
+      cases g; simp_all [VG.norm]
   · have h4 : g.version = VSET_NEW_VERSION := hf1 hz
     have he : toI16 g.version = VSET_NEW_VERSION := (toI16_eq_new _ hver).mpr h4
-    simp only [he, if_true, ne_eq, hz, not_false_eq_true, List.append_assoc, getU32_u32 _ hfl]
+    have hw : hasFlagsWord fx g = true := by simp [hasFlagsWord, hz]
+    simp only [hw, he, if_true, List.append_assoc, getU32_u32 _ hfl]
     by_cases hb : g.flags &&& VG_ATTR_SET = 0
     · have hattr : g.attrs = [] := ha0 hb
-      simp only [hb, not_true_eq_false, if_false, List.nil_append]
+      simp only [hb, ne_eq, not_true_eq_false, if_false, List.nil_append]
       cases g; simp_all [VG.norm]
     · obtain ⟨hal, hap⟩ := ha1 hb
       have hal' : g.attrs.length < 4294967296 := by omega
       have hnot : ¬ g.attrs.length ≥ 2147483648 := by omega
-      simp only [hb, not_false_eq_true, if_true, List.append_assoc, getU32_u32 _ hal', hnot, if_false,
+      simp only [ne_eq, hb, not_false_eq_true, if_true, List.append_assoc, getU32_u32 _ hal', hnot, if_false,
         getPairs_pack _ hap]
       cases g; simp_all [VG.norm]
+
+theorem vunpackvg_vpackvg (g : VG) (h : g.WFmem) : vunpackvg (vpackvg g) = some g.norm :=
+  vunpackvg_vpackvgF false g h.fix (fun _ => h.2.2.2.2.2.2.2.2.2.2.1)
+
+/-- on a Vgroup the current code can represent, the fix changes no byte -/
+theorem vpackvgF_eq_of_wfmem (fx : Bool) (g : VG) (h : g.WFmem) : vpackvgF fx g = vpackvg g := by
+  obtain ⟨_, _, _, _, _, _, _, hver, _, _, hf0, _⟩ := h
+  have : hasFlagsWord fx g = hasFlagsWord false g := by
+    by_cases hz : g.flags = 0
+    · have hne : ¬ toI16 g.version = VSET_NEW_VERSION := by rw [toI16_eq_new _ hver]; exact hf0 hz
+      simp [hasFlagsWord, hz, hne]
+    · simp [hasFlagsWord, hz]
+  simp only [vpackvg, vpackvgF, this]
 
 theorem normName_of_ne {s : Option Bytes} (h : s ≠ some []) : normName s = s := by
   cases s with
@@ -173,7 +205,7 @@ theorem packStr_norm (s : Option Bytes) : packStr (normName s) = packStr s := by
   | some b => cases b <;> rfl
 
 theorem vpackvg_norm (g : VG) : vpackvg g.norm = vpackvg g := by
-  simp only [vpackvg, VG.norm, packStr_norm, packVersion]
+  simp only [vpackvg, vpackvgF, VG.norm, packStr_norm, packVersion, hasFlagsWord]
   rfl
 
 theorem VG.norm_wfmem {g : VG} (h : g.WFmem) : g.norm.WFmem := by
